@@ -65,7 +65,8 @@ def run_property(pid, tier, only=None):
             continue
         for k in stats_all:
             stats_all[k] |= E.stats[k]
-        all_obs += [o for o in E.obs if o.info.get('tags') is None or pid in o.info['tags']]
+        also = set(spec.get('includes', []))
+        all_obs += [o for o in E.obs if o.info.get('tags') is None or pid in o.info['tags'] or (o.info['tags'] & also)]
     known0 = set(k['obligation'] for k in load_known().get('findings', []) if k['property'] == pid)
     results = engine.discharge(all_obs, timeout_ms=timeout_ms, seed=seed, no_retry=known0)
     # group by obligation name
@@ -73,7 +74,7 @@ def run_property(pid, tier, only=None):
     canaries = {}
     for ob, r in zip(all_obs, results):
         tags = ob.info.get('tags')
-        if tags is not None and pid not in tags:
+        if tags is not None and pid not in tags and not (tags & set(spec.get('includes', []))):
             continue            # clause serves other properties only
         if ob.kind == 'canary':
             canaries.setdefault(ob.name, []).append(r)
